@@ -99,12 +99,33 @@ func newSolver(workDir string, timeout int, par int, agree bool) *Solver {
 
 // solve discharges one obligation: unsat = discharged (or, for cover obligations, sat = ok).
 func (sv *Solver) solve(un *Unit, o *Obl) {
+	if o.Decided {
+		if o.Status == "discharged" {
+			sv.mu.Lock()
+			sv.byBackend[o.Solver]++
+			sv.mu.Unlock()
+		}
+		return
+	}
+	if !o.Cover && !o.IsPart && !o.noSplit {
+		src := o.Parts
+		if len(src) <= 1 {
+			src = []string{o.Goal}
+		}
+		var parts []string
+		for _, p := range src {
+			parts = append(parts, splitConj(p, 64)...)
+		}
+		if len(parts) > 1 && len(parts) <= 128 {
+			o.Parts = parts
+		}
+	}
 	if len(o.Parts) > 1 {
 		// a conjunction of independent goals (one per return site): one query each; all must be discharged
 		var subs []*Obl
 		var wg sync.WaitGroup
 		for i, p := range o.Parts {
-			sub := &Obl{Name: fmt.Sprintf("%s~part%d", o.Name, i+1), Kind: o.Kind, Guard: o.Guard, Goal: p, NFacts: o.NFacts, Fn: o.Fn, Text: o.Text, IsPart: true}
+			sub := &Obl{Name: fmt.Sprintf("%s~part%d", o.Name, i+1), Kind: o.Kind, Guard: o.Guard, Goal: p, NFacts: o.NFacts, Fn: o.Fn, Text: o.Text, IsPart: true, Pos: o.Pos}
 			subs = append(subs, sub)
 			wg.Add(1)
 			go func(sub *Obl) { defer wg.Done(); sv.solve(un, sub) }(sub)
@@ -119,6 +140,11 @@ func (sv *Solver) solve(un *Unit, o *Obl) {
 			}
 			if o.Status == "discharged" || sub.Status == "failed" {
 				o.Status, o.Output, o.Model, o.SmtFile, o.Solver, o.Candidate = sub.Status, sub.Output, sub.Model, sub.SmtFile, sub.Solver, sub.Candidate
+				g := sub.Goal
+				if len(g) > 300 {
+					g = g[len(g)-300:]
+				}
+				o.Output += fmt.Sprintf(" [%s: ...%s]", sub.Name[strings.LastIndex(sub.Name, "~")+1:], g)
 			}
 		}
 		if o.Status == "discharged" {
@@ -143,6 +169,17 @@ func (sv *Solver) solve(un *Unit, o *Obl) {
 			sv.solveFileS(un, o, file2, sv.timeout, []string{"z3-new", "z3"})
 			if o.Status == "discharged" {
 				o.Output = "sat (quantifier-free part of the hypotheses)"
+				// the quantified hypotheses can be contradictory too: an `unsat` of the full query is a definite vacuity
+				// (sat / unknown / timeout there prove nothing and leave the verdict of the quantifier-free part)
+				if un.u.usesQuant {
+					if err := os.WriteFile(file, []byte(un.smtForOpt(o, true, false)), 0o644); err == nil {
+						probe := &Obl{Name: o.Name, Kind: o.Kind, Cover: true, OptionalCover: true, IsPart: true}
+						sv.solveFileS(un, probe, file, 3, []string{"z3-new", "cvc5"})
+						if probe.Status == "failed" && probe.Output == "unsat" {
+							o.Status, o.Output, o.SmtFile, o.Solver = "failed", "unsat: the hypotheses (with the quantified ones) are contradictory", file, probe.Solver
+						}
+					}
+				}
 			}
 			return
 		}
@@ -345,4 +382,101 @@ func (sv *Solver) solveAll(un *Unit, obls []*Obl) {
 		}(o)
 	}
 	wg.Wait()
+}
+
+// ---- goal splitting: a conjunction is discharged conjunct by conjunct (smaller queries, fewer quantifier interactions) ----
+
+// sexprArgs splits "(head a b c)" into head and arguments; ok=false when t is not a list.
+func sexprArgs(t string) (string, []string, bool) {
+	t = strings.TrimSpace(t)
+	if len(t) < 2 || t[0] != '(' || t[len(t)-1] != ')' {
+		return "", nil, false
+	}
+	body := t[1 : len(t)-1]
+	var toks []string
+	depth, start := 0, -1
+	inBar, inStr := false, false
+	flush := func(end int) {
+		if start >= 0 {
+			toks = append(toks, body[start:end])
+			start = -1
+		}
+	}
+	for i := 0; i < len(body); i++ {
+		c := body[i]
+		switch {
+		case inBar:
+			if c == '|' {
+				inBar = false
+			}
+		case inStr:
+			if c == '"' {
+				inStr = false
+			}
+		case c == '|':
+			inBar = true
+			if start < 0 {
+				start = i
+			}
+		case c == '"':
+			inStr = true
+			if start < 0 {
+				start = i
+			}
+		case c == '(':
+			if start < 0 {
+				start = i
+			}
+			depth++
+		case c == ')':
+			depth--
+			if depth < 0 {
+				return "", nil, false
+			}
+		case c == ' ' || c == '\n' || c == '\t':
+			if depth == 0 {
+				flush(i)
+			}
+		default:
+			if start < 0 {
+				start = i
+			}
+		}
+	}
+	flush(len(body))
+	if depth != 0 || len(toks) == 0 {
+		return "", nil, false
+	}
+	return toks[0], toks[1:], true
+}
+
+// splitConj returns goals whose conjunction is equivalent to t: (and ..) is flattened, (=> g (and ..)) distributes.
+func splitConj(t string, limit int) []string {
+	head, args, ok := sexprArgs(t)
+	if !ok || limit <= 1 {
+		return []string{t}
+	}
+	switch head {
+	case "and":
+		var out []string
+		for _, a := range args {
+			out = append(out, splitConj(a, limit)...)
+		}
+		if len(out) > limit {
+			return []string{t}
+		}
+		return out
+	case "=>":
+		if len(args) == 2 {
+			sub := splitConj(args[1], limit)
+			if len(sub) > 1 {
+				var out []string
+				for _, s := range sub {
+					out = append(out, "(=> "+args[0]+" "+s+")")
+				}
+				return out
+			}
+		}
+	}
+	return []string{t}
 }
